@@ -241,3 +241,74 @@ Section OverReceiver.
       + intros E; inversion E; subst. exists c1. reflexivity.
   Qed.
 End OverReceiver.
+
+(** * samedec over the receiver model: the iterator contract holds with enough calls *)
+Section ReceiverInstance.
+  Variable c : rcfg.
+  (** the items the DSP makes of flush()'s zero padding, as a function of the state (oracle) *)
+  Variable pad : rx -> list item.
+
+  Lemma step_core_two_events k i : (length (snd (step_core c k i)) <= 2)%nat.
+  Proof.
+    unfold step_core. destruct i as [|t]; [cbn; lia|].
+    destruct (linklayer_symbol c (r_sq k) (r_fr k) t) as [[[l sq'] fr'] u].
+    destruct (transportlayer c (r_asm k) l (sq_symcount sq') (r_samples k + 1) (r_force_eom k)) as [[ot asm'] force'].
+    destruct (negb (link_eqb l (r_link k))); destruct ot as [t'|]; try destruct (transport_eqb t' (r_transport k));
+      simpl; lia.
+  Qed.
+
+  Lemma run_core_event_bound : forall src k, (length (fst (run_core c k src)) <= 2 * length src)%nat.
+  Proof.
+    induction src as [|i src IH]; intros k; cbn [run_core fst length]; [lia|].
+    pose proof (step_core_two_events k i) as H2. destruct (step_core c k i) as [k1 evs]. cbn [snd] in H2.
+    specialize (IH k1). destruct (run_core c k1 src) as [evs' kf]. cbn [fst] in *. rewrite app_length. lia.
+  Qed.
+
+  Definition enough (s : rx) (src : list item) : nat := S (length (r_queue s) + 2 * length src).
+
+  Definition rxm_next (s : rx) (src : list item) : option message * rx * list item :=
+    next_message (enough s src) c s src.
+  Definition rxm_flush (s : rx) : option message * rx := flush (enough s (pad s)) c s (pad s).
+
+  (** with enough calls [next_message] only gives up when the source is exhausted and nothing is queued *)
+  Lemma next_message_none : forall fuel s src s' rest,
+    (length (r_queue s ++ fst (run_core c (r_core s) src)) < fuel)%nat ->
+    next_message fuel c s src = (None, s', rest) ->
+    rest = [] /\ r_queue s' = [].
+  Proof.
+    induction fuel as [|f IH]; intros s src s' rest Hf E; [lia|].
+    cbn [next_message] in E. pose proof (process_spec c s src) as P.
+    destruct (process c s src) as [[oe s1] r1]. destruct oe as [e|].
+    - destruct P as (P1 & _). destruct (msg_of e); [discriminate|].
+      apply (IH s1 r1 s' rest); [|exact E]. cbv zeta in P1. rewrite P1 in Hf. cbn [length] in Hf. lia.
+    - destruct P as (_ & P2 & P3 & _). inversion E; subst. split; try assumption; try reflexivity.
+  Qed.
+
+  Lemma rxm_next_none s src s' rest :
+    rxm_next s src = (None, s', rest) -> rest = [] /\ rxm_next s' [] = (None, s', []).
+  Proof.
+    unfold rxm_next. intros E.
+    assert (length (r_queue s ++ fst (run_core c (r_core s) src)) < enough s src)%nat as Hf.
+    { unfold enough. rewrite app_length. pose proof (run_core_event_bound src (r_core s)). lia. }
+    destruct (next_message_none _ _ _ _ _ Hf E) as [-> Hq]. split; [reflexivity|].
+    unfold enough. cbn [length Nat.mul Nat.add]. rewrite Hq. cbn [length Nat.add next_message].
+    unfold process, pop_event. rewrite Hq. cbn [process_loop]. reflexivity.
+  Qed.
+
+  Lemma rxm_next_suffix s src m s' rest : rxm_next s src = (m, s', rest) -> exists cs, src = cs ++ rest.
+  Proof. unfold rxm_next. apply rx_next_suffix. Qed.
+
+  (** so every theorem about samedec's control flow holds with the receiver model plugged in *)
+  Theorem samedec_over_receiver_stdout : forall f1 f2 hc1 hc2 ok1 ok2 s inp o1 o2,
+    run rx item rxm_next rxm_flush f1 false hc1 ok1 s inp = Some o1 ->
+    run rx item rxm_next rxm_flush f2 false hc2 ok2 s inp = Some o2 ->
+    o_stdout _ o1 = o_stdout _ o2.
+  Proof. exact (stdout_independent_of_child rx item rxm_next rxm_flush rxm_next_none). Qed.
+
+  Theorem samedec_over_receiver_audio : forall fuel q hc ok k pos s inp ph o o1 inp0,
+    app rx item rxm_next rxm_flush fuel q hc ok k pos s inp ph o = Some o1 ->
+    inp = skipn pos inp0 -> (pos <= length inp0)%nat ->
+    Forall (child_ok item inp0) (o_spawns _ o) ->
+    Forall (child_ok item inp0) (o_spawns _ o1).
+  Proof. exact (child_audio_contiguous rx item rxm_next rxm_flush rxm_next_suffix). Qed.
+End ReceiverInstance.
